@@ -363,6 +363,244 @@ def run_impl(case):
     return lit, dump, info
 
 
+# ----------------------------------------------------------------------------- composite functions (Model/StepsFunc.v)
+# The real steps applied to sums / scaled sums of leaf functions: F = w1*f1 + w2*f2 (+ w3*f3), possibly nested
+# (G = f3 + 2*F).  The expected dump has the shape of Model/StepsFunc.v [dump_run]: result, point arguments after
+# the call, counters, and for EVERY function (leaf or composite) its Model/Func.v record (is_leaf, reuse_gradient,
+# weights over function ids, list_of_points, list_of_stationary_points) and its list_of_constraints.
+COMP_WEIGHTS = [1, 1, 2, 2.0, 0.5, -1, 4, 0.25, -2, -0.5, 3, 1.5, 2.0 ** -20, 2.0 ** 12]
+
+
+def _comp_weights(terms, nleaf, comps):
+    """weights over leaf indices of  w1*t1 + w2*t2 + ...  (exact), or None when some weight cancels to zero"""
+    acc = {}
+    for i, w in terms:
+        sub = {i: Fraction(1)} if i < nleaf else comps[i - nleaf]["w"]
+        for k, v in sub.items():
+            acc[k] = acc.get(k, Fraction(0)) + to_fraction(w) * v
+    if not acc or any(v == 0 for v in acc.values()):
+        return None
+    return acc
+
+
+def gen_comp_case(rng, step=None, opt="#none"):
+    """a replayable description of one world with composite functions and 1-2 step calls (JSON-able)"""
+    nleaves = rng.randint(2, 4)
+    nleaf = rng.randint(2, 3)
+    funs = [dict(cls=rng.randrange(len(LEAF_CLASSES))) for _ in range(nleaf)]
+    comps = []
+    for c in range(rng.randint(1, 2)):
+        while True:
+            k = rng.choice([1, 2, 2, 2, 3, 3])
+            idx = rng.sample(range(nleaf), min(k, nleaf))
+            terms = [[i, rng.choice(COMP_WEIGHTS)] for i in idx]
+            if comps and rng.random() < 0.35:
+                terms.insert(rng.randrange(len(terms) + 1), [nleaf + rng.randrange(len(comps)), rng.choice([1, 2, 0.5, -1])])
+            if len(terms) == 1 and terms[0][1] == 1:
+                terms[0][1] = 2            # a bare alias  F = f  is not a composite
+            w = _comp_weights(terms, nleaf, comps)
+            if w is not None:
+                break
+        comps.append(dict(terms=terms, w=w))
+    nfun = nleaf + len(comps)
+    hist = []
+    for _ in range(rng.choice([0, 0, 1, 1, 2, 3])):
+        r = rng.random()
+        f = rng.randrange(nfun)
+        if r < 0.45:
+            hist.append(dict(op="oracle", f=f, x=combo(rng, range(nleaves), wide_p=0.05)))
+        elif r < 0.6:
+            hist.append(dict(op="value", f=f, x=combo(rng, range(nleaves), wide_p=0.05)))
+        elif r < 0.8:
+            hist.append(dict(op="add_point", f=f, x=combo(rng, range(nleaves), wide_p=0.05),
+                             g=combo(rng, range(nleaves), wide_p=0.05), fresh_g=rng.random() < 0.4))
+        elif r < 0.9:
+            hist.append(dict(op="stationary", f=f))
+        else:
+            hist.append(dict(op="constraint", f=f, a=rng.randrange(nleaves), b=rng.randrange(nleaves),
+                             c=rng.choice([0, 1, 0.5, -2]), eq=rng.random() < 0.3))
+    prior = [h["x"] for h in hist if h["op"] in ("oracle", "value", "add_point")]
+    calls = []
+    for ci in range(1 if rng.random() < 0.6 else 2):
+        name = (step if (step and ci == 0) else rng.choice(STEP_NAMES))
+        kinds, lits = STEPS[name]
+        call = []
+        for k in kinds:
+            if k == "P":
+                r = rng.random()
+                if ci == 1 and r < 0.45:
+                    call.append(dict(kind="P", ret=rng.randrange(3)))     # a Point returned by the first call
+                elif r < 0.6 and prior:
+                    call.append(dict(kind="P", pt=rng.choice(prior)))    # a point some function was evaluated on
+                elif r < 0.75:
+                    call.append(dict(kind="P", pt=dict(terms=[[rng.randrange(nleaves), 1]], times_zero=False)))
+                else:
+                    call.append(dict(kind="P", pt=combo(rng, range(nleaves), wide_p=0.1)))
+            elif k == "F":
+                call.append(dict(kind="F", f=(nleaf + rng.randrange(len(comps))) if rng.random() < 0.75
+                                 else rng.randrange(nleaf)))
+            elif k == "S":
+                call.append(dict(kind="S", v=rand_scal(rng, wide=rng.random() < 0.3)))
+            elif k == "L":
+                call.append(dict(kind="L", pts=[combo(rng, range(nleaves), 2) for _ in range(rng.randint(1, 3))]))
+            elif k == "O":
+                call.append(dict(kind="O", v=(rng.choice(lits + lits + ["#default", "bogus"])
+                                              if (opt == "#none" or ci > 0) else opt)))
+        o = [c["v"] for c in call if c["kind"] == "O"]
+        if name == "inexact_proximal_step" and o[0] == "PD_gapIII":
+            for c in call:
+                if c["kind"] == "S":
+                    c["v"] = 0 if rng.random() < 0.1 else rand_scal(rng, power_of_two=True, wide=False)
+        if name == "inexact_gradient_step" and o[0] == "relative":
+            sc = [c for c in call if c["kind"] == "S"]
+            if magnitude(sc[1]["v"]) == "tiny":
+                sc[1]["v"] = rng.choice([2.0 ** -10, 0.5, 3])
+        calls.append(dict(step=name, call=call))
+    return dict(nleaves=nleaves, funs=funs, comps=[c["terms"] for c in comps], hist=hist, calls=calls)
+
+
+def setup_comp_case(case):
+    from PEPit import PEP, Point, Expression
+    import PEPit.functions as PF
+    pep = PEP()
+    c = Ctx()
+    c.pep = pep
+    c.leaves = [Point() for _ in range(case["nleaves"])]
+    c.funs = []
+    for fd in case["funs"]:
+        cname, kw = LEAF_CLASSES[fd["cls"]]
+        c.funs.append(pep.declare_function(getattr(PF, cname), **kw))
+    for terms in case["comps"]:
+        F = None
+        for i, w in terms:
+            t = c.funs[i] if w == 1 else xf(w) * c.funs[i]
+            F = t if F is None else F + t
+        c.funs.append(F)
+    for h in case["hist"]:
+        f = c.funs[h["f"]]
+        if h["op"] == "oracle":
+            f.oracle(build_point(h["x"], c.leaves))
+        elif h["op"] == "value":
+            f.value(build_point(h["x"], c.leaves))
+        elif h["op"] == "add_point":
+            g = Point() if h["fresh_g"] else build_point(h["g"], c.leaves)
+            f.add_point((build_point(h["x"], c.leaves), g, Expression()))
+        elif h["op"] == "stationary":
+            f.stationary_point()
+        else:
+            e = c.leaves[h["a"]] * c.leaves[h["b"]] - h["c"]
+            with warnings.catch_warnings():
+                warnings.simplefilter("ignore")
+                f.add_constraint((e == 0) if h["eq"] else (e <= 0))
+    return c
+
+
+def dump_func(f, fmap, pid, xid):
+    smp = lambda t: [T.dump_pdict(t[0].decomposition_dict, pid), T.dump_pdict(t[1].decomposition_dict, pid),
+                     T.dump_edict(t[2].decomposition_dict, pid, xid)]
+    return [[bool(f._is_leaf), bool(f.reuse_gradient), [[fmap[k], Q(v)] for k, v in f.decomposition_dict.items()],
+             [smp(t) for t in f.list_of_points], [smp(t) for t in f.list_of_stationary_points]],
+            [T.dump_constraint(k, pid, xid) for k in f.list_of_constraints]]
+
+
+def coq_func(d):
+    cs = lambda l: coq_list(["(%s, %s, %s)" % (coq_pd(t[0]), coq_pd(t[1]), coq_ed(t[2])) for t in l])
+    r = d[0]
+    return "Func.mkF %s %s %s %s %s" % ("true" if r[0] else "false", "true" if r[1] else "false", coq_pd(r[2]),
+                                         cs(r[3]), cs(r[4]))
+
+
+def run_impl_comp(case):
+    """run the real steps of one world.  Returns a list of (coq input literal, expected dump, info), one per call
+    (calls made after a float operation rounded are not returned: not comparable with the exact model)"""
+    from PEPit import Point, Expression
+    XF.inexact = 0
+    c = setup_comp_case(case)
+    fmap = T.IdMap(c.funs)
+    out = []
+    last_ret = None
+    for call in case["calls"]:
+        name = call["step"]
+        args, pts, fids, scs, dirs, opt = [], [], [], [], [], ""
+        for a in call["call"]:
+            if a["kind"] == "P":
+                p = None
+                if "ret" in a:
+                    rp = [o for o in (last_ret or ()) if type(o).__name__ == "Point"]
+                    p = rp[a["ret"] % len(rp)] if rp else c.leaves[0]
+                else:
+                    p = build_point(a["pt"], c.leaves)
+                args.append(p)
+                pts.append(p)
+            elif a["kind"] == "F":
+                args.append(c.funs[a["f"]])
+                fids.append(a["f"])
+            elif a["kind"] == "S":
+                args.append(xf(a["v"]) if isinstance(a["v"], float) else a["v"])
+                scs.append(a["v"])
+            elif a["kind"] == "L":
+                dirs = [build_point(p, c.leaves) for p in a["pts"]]
+                args.append(dirs)
+            else:
+                if a["v"] != "#default":
+                    args.append(a["v"])
+                opt = a["v"]
+        if XF.inexact:
+            break
+        pid, xid = leaf_maps()
+        pre = [dump_func(f, fmap, pid, xid) for f in c.funs]
+        pre_pts = [T.dump_pdict(p.decomposition_dict, pid) for p in pts]
+        pre_dirs = [T.dump_pdict(p.decomposition_dict, pid) for p in dirs]
+        pc, xc = Point.counter, Expression.counter
+        optlit = ("default_%s" % name) if opt == "#default" else coq_str(opt)
+        clog = ["(%s, (%s, %s))" % (coq_nat(i), coq_ed(k[0]), "Equ" if k[1] else "Ineq")
+                for i, d in enumerate(pre) for k in d[1]]
+        lit = "mkFCase (step_program %s %s) (mk_args %s %s %s %s) (Func.mkS %s %s %s) %s %s %s" % (
+            coq_str(name), optlit,
+            coq_list([coq_pd(p) for p in pre_pts]), coq_list([coq_nat(k) for k in fids]),
+            coq_list([coq_q(s) for s in scs]), coq_list([coq_pd(p) for p in pre_dirs]),
+            coq_nat(pc), coq_nat(xc), coq_list([coq_func(d) for d in pre]), coq_list(clog),
+            coq_nat(len(c.funs)), coq_nat(len(pts)))
+        err, ret = None, None
+        try:
+            with warnings.catch_warnings():
+                warnings.simplefilter("ignore")
+                ret = step_fn(name)(*args)
+        except (ValueError, ZeroDivisionError) as e:
+            err = type(e).__name__
+        if XF.inexact:
+            break
+        pid, xid = leaf_maps()
+        if err is not None:
+            res = ["err", err]
+        elif ret is None:
+            res = ["none"]
+        else:
+            items = []
+            for o in (ret if isinstance(ret, tuple) else (ret,)):
+                if type(o).__name__ == "Point":
+                    items.append(["P", T.dump_pdict(o.decomposition_dict, pid)])
+                else:
+                    items.append(["X", T.dump_edict(o.decomposition_dict, pid, xid)])
+            res = ["ok", items]
+        post = [dump_func(f, fmap, pid, xid) for f in c.funs]
+        dump = [res, [T.dump_pdict(p.decomposition_dict, pid) for p in pts], Point.counter, Expression.counter, post]
+        farg_comp = [not c.funs[k]._is_leaf for k in fids]
+        terms_before = any(len(pre[fmap[t]][0][3]) > 0 for k in fids if not c.funs[k]._is_leaf
+                           for t in c.funs[k].decomposition_dict)
+        new_on_terms = sum(len(post[i][0][3]) - len(pre[i][0][3]) for i in range(len(c.funs)) if c.funs[i]._is_leaf)
+        new_on_comps = sum(len(post[i][0][3]) - len(pre[i][0][3]) for i in range(len(c.funs)) if not c.funs[i]._is_leaf)
+        info = dict(step=name, opt=opt, result_kind=res[0], error=err, composite_args=farg_comp,
+                    nterms=[len(c.funs[k].decomposition_dict) for k in fids if not c.funs[k]._is_leaf],
+                    terms_before=terms_before, new_on_terms=new_on_terms, new_on_comps=new_on_comps,
+                    second=(call is not case["calls"][0]), from_return=any("ret" in a for a in call["call"]),
+                    classes=sorted(set(LEAF_CLASSES[case["funs"][fmap[t]]["cls"]][0] for k in fids
+                                       for t in c.funs[k].decomposition_dict)))
+        out.append((lit, dump, info))
+        last_ret = ret if isinstance(ret, tuple) else ((ret,) if ret is not None else None)
+    return out
+
+
 # ----------------------------------------------------------------------------- exact real members
 def vec(*a):
     return [Fraction(x) for x in a]
